@@ -86,11 +86,11 @@ Proof.
       destruct (multi_message (seq_at v md) ms) as [mm|]; [|discriminate].
       destruct (materialise cfg v bl rest (S md) d) as [r|] eqn:E; [|discriminate]. injection H as <-.
       cbn [flat_map out_ids plan_ids packet_ids]. fold (plan_ids rest). rewrite (IH _ _ _ E). reflexivity.
-    + destruct (find_built bl id) as [[[q b] dn]|]; [|discriminate]. destruct b as [| | |pw]; try discriminate.
+    + destruct (find_built bl id) as [[[q b] dn]|]; [|discriminate]. destruct b as [| | | |pw]; try discriminate.
       destruct (build_message pw) as [p'|]; [|discriminate].
       destruct (materialise cfg v bl rest md d) as [r|] eqn:E; [|discriminate]. injection H as <-.
       cbn [flat_map out_ids plan_ids packet_ids app]. fold (plan_ids rest). rewrite (IH _ _ _ E). reflexivity.
-    + destruct (find_built bl id) as [[[q b] dn]|]; [|discriminate]. destruct b as [| | |pw]; try discriminate.
+    + destruct (find_built bl id) as [[[q b] dn]|]; [|discriminate]. destruct b as [| | | |pw]; try discriminate.
       destruct (send_fragmented cfg v d pw (seq_at v (S dn))) as [[ms d']|]; [|discriminate].
       destruct (materialise cfg v bl rest md d') as [r|] eqn:E; [|discriminate]. injection H as <-.
       cbn [flat_map out_ids plan_ids packet_ids app]. fold (plan_ids rest). rewrite (IH _ _ _ E). reflexivity.
@@ -104,7 +104,7 @@ Lemma build_all_reqs cfg multi v reqs : forall drawn seen bl n,
 Proof.
   induction reqs as [|q rest IH]; intros drawn seen bl n H; cbn [build_all] in H.
   - injection H as <- _. reflexivity.
-  - destruct (build_one cfg multi (seq_at v drawn) q) as [b|]; [|discriminate].
+  - match type of H with context [build_one ?c ?j ?sq q] => destruct (build_one c j sq q) as [b|]; [|discriminate] end.
     match type of H with context [build_all cfg multi v rest ?d ?s] => destruct (build_all cfg multi v rest d s) as [[l n']|] eqn:E; [|discriminate] end.
     injection H as <- _. cbn [map fst]. rewrite (IH _ _ _ _ E). reflexivity.
 Qed.
@@ -113,7 +113,7 @@ Lemma abstract_id q b : w_id (abstract_of q b) = q_id q.
 Proof. destruct b; reflexivity. Qed.
 
 (* the request was not served: parsing failed, or encode_value raised *)
-Definition built_failed (b : built) : bool := match b with BErr | BEncErr => true | _ => false end.
+Definition built_failed (b : built) : bool := match b with BErr | BEncErr | BBuildErr => true | _ => false end.
 Lemma abstract_valid q b : w_valid (abstract_of q b) = negb (built_failed b).
 Proof. destruct b; reflexivity. Qed.
 
